@@ -55,7 +55,7 @@ impl Prop for C07 {
         Scenario::Session(Session { docs: vec![], alts: vec![], replicas, opts })
     }
     fn exec(&self, sc: &Scenario, ctr: &mut Ctr) -> Result<Exec, String> {
-        let Scenario::Session(s) = sc;
+        let Scenario::Session(s) = sc else { return Ok(super::skip("not_a_session")) };
         for r in &s.replicas {
             for st in &r.steps {
                 if let Input::Raw(b) = &st.input {
